@@ -19,6 +19,7 @@
  R7 channel order : SpectralInformation re-orders every per-channel array (incl. delta_pdb_per_channel) with one argsort.
  Rk field/key     : the parameter classes store every configuration entry under its own name (frozen rename table).
  Rx export keys   : each loaded parameter is exported under the key its loader reads it from.
+ Re for-each      : loops that act on every item are never left early (break / return).
 """
 import ast
 
@@ -380,6 +381,15 @@ def rx_export_keys(ctx):
     ctx.need('Rx.export-keys', 3)
 
 
+def re_foreach(ctx):
+    """Re: loops that act on EVERY item (store on the item / call a function that writes it) are never left early (break / return):
+    the items after the exit would silently be skipped; the two search loops of the package are a frozen table"""
+    from .common import foreach_rule
+    from ..memo import scope_funcs
+    foreach_rule(ctx, 'Re.for-each', scope_funcs(ctx.repo, 'C06'), 'later degrees / channels keep no target')
+    ctx.need('Re.for-each', 1)
+
+
 from ..memo import rule_for as _memo_rule
 
 RULES_MEMO = ('Rm.memo', _memo_rule('C06', 'the equalisation computed for another spectrum or target would be applied'))
@@ -389,4 +399,4 @@ from ..presence import rule_for as _presence_rule
 
 RULES_PRESENCE = ('Rp.presence', _presence_rule('C06', 'a ROADM target of exactly 0 dBm would be ignored and another target applied'))
 
-RULES = [('R6.stateless', r6_stateless), ('R1.formula', r1_formula), ('R2.policy', r2_policy), ('R4.one-policy', r4_one_policy), ('R5.design', r5_design), RULES_MEMO, RULES_PRESENCE, ('R7.channel-order', r7_channel_order), ('Rk.field-key', rk_field_key), ('Rx.export-keys', rx_export_keys)]
+RULES = [('R6.stateless', r6_stateless), ('R1.formula', r1_formula), ('R2.policy', r2_policy), ('R4.one-policy', r4_one_policy), ('R5.design', r5_design), RULES_MEMO, RULES_PRESENCE, ('R7.channel-order', r7_channel_order), ('Rk.field-key', rk_field_key), ('Rx.export-keys', rx_export_keys), ('Re.for-each', re_foreach)]
